@@ -8,6 +8,7 @@ void dump_more_msp430dis();
 void dump_more_riscv();
 void dump_more_symbols();
 void dump_more_det();
+void dump_more_util();
 static void dump_more()
 {
   dump_more_cond();
@@ -16,5 +17,6 @@ static void dump_more()
   dump_more_riscv();
   dump_more_symbols();
   dump_more_det();
+  dump_more_util();
 }
 #endif
